@@ -103,6 +103,11 @@ def main(argv=None):
     ap.add_argument("--replay-dir", help="where to keep replay files of reported violations (default /verif/replays)")
     ap.add_argument("--verbose", action="store_true")
     a = ap.parse_args(argv)
+    for stream_ in (sys.stdout, sys.stderr):
+        try:
+            stream_.reconfigure(errors="backslashreplace")      # details may quote lone surrogates
+        except Exception:                                         # noqa: BLE001
+            pass
     prop = a.property.upper()
     t0 = time.time()
 
@@ -265,7 +270,8 @@ def confirm_cross(prop, a, m, scratch):
     import importlib
     mod = importlib.import_module("checks." + prop.lower())
     run_seed = kernel.H(a.seed, prop, m["i"])
-    plan = mod.generate(run_seed, a.tier)
+    gi = getattr(mod, "generate_indexed", None)
+    plan = gi(m["i"], run_seed, a.tier) if gi else mod.generate(run_seed, a.tier)
     seeds = []
     for _, h in m["outcomes"]:
         if h not in seeds:
